@@ -162,7 +162,7 @@ class Ctx:
         self.cov["stages"]["audit"] = round(dt, 1)
         txt = so + se
         seen = {}
-        for mm in re.finditer(r"'([^']+)' (does not depend on any axioms|depends on axioms: \[([^\]]*)\])", txt):
+        for mm in re.finditer(r"'(\S+)' (does not depend on any axioms|depends on axioms: \[([^\]]*)\])", txt):
             ax = [a.strip() for a in (mm.group(3) or "").replace("\n", " ").split(",") if a.strip()]
             seen[mm.group(1)] = ax
         for _, t in thms:
